@@ -78,10 +78,10 @@ B0_FULL = (0x00, 0x01, 0x02, 0x03, 0x04, 0x10, 0x11, 0x12, 0x21, 0x31, 0x40, 0x4
 B1_QUICK = (0x00, 0x01, 0x02, 0x03, 0x04, 0x05, 0x64, 0x65, 0x80, 0xFF)
 B1_FULL = (0x00, 0x01, 0x02, 0x03, 0x04, 0x05, 0x10, 0x64, 0x65, 0x80, 0xFE, 0xFF)
 
-W23_QUICK = (None, b"\x00\x00", b"\x00\x03", b"\x00\x04")
-W23_FULL = (None, b"\x00\x00", b"\x00\x03", b"\x00\x04", b"\x01\x00")
-W8_QUICK = (None, b"\x00\x00\x00\x00", b"\x00\x00\x00\x03", b"\x00\x00\x00\x04")
-W8_FULL = (None, b"\x00\x00\x00\x00", b"\x00\x00\x00\x03", b"\x00\x00\x00\x04", b"\x00\x01\x00\x00")
+# bytes 2-3 and 8-11: the action values 0, 3 (last valid), 4 (first invalid) and a value that is only invalid through its
+# high-order bytes (catches a field read with the wrong width); None keeps the template's bytes
+W23 = (None, b"\x00\x00", b"\x00\x03", b"\x00\x04", b"\x01\x00")
+W8 = (None, b"\x00\x00\x00\x00", b"\x00\x00\x00\x03", b"\x00\x00\x00\x04", b"\x00\x01\x00\x00")
 LAST = (None, ord("e"), ord("f"))
 
 # the full (byte0, byte1) plane is crossed with these (w23, w8, last) settings: neutral, and each other shape switched
@@ -311,8 +311,7 @@ def run_inner_items(chunk: list) -> list:
         try:
             tmpl = templates(inner.prefix, FILLERS[_SEED % len(FILLERS)])[tname]
             if part == "grid":
-                combos = [(a, b, c) for a in (W23_FULL if _THOROUGH else W23_QUICK)
-                          for b in (W8_FULL if _THOROUGH else W8_QUICK) for c in LAST]
+                combos = [(a, b, c) for a in W23 for b in W8 for c in LAST]
                 gen = payloads(tmpl, ALL_LENGTHS if _THOROUGH else THRESH, b0,
                                (B1_FULL if _THOROUGH else B1_QUICK) if b0 is not None else (None,), combos)
                 dirs = DIRS         # both address families at the threshold lengths, IPv4 only at the lengths in between
